@@ -140,7 +140,7 @@ def check_clip(sess):
             if not pt[0].z().eq(x1) or not pt[1].z().eq(y1):
                 sess.canary('clipped-first-end-equals-input-first-end', list(q.pc), z3.And(pt[0].z() == x1, pt[1].z() == y1))
                 done.add('unchanged')
-        if (not out.val.items[0].b) and 'reject' not in done:
+        if (not out.val.items[0].b) and 'reject' not in done and ex.feasible(q, z3.Not(z3.And(x1 < x0, x2 < x0))):
             # "reject implies both ends outside on the left" is not what the code does in general
             sess.canary('reject-only-left-of-the-rectangle', list(q.pc), z3.And(x1 < x0, x2 < x0))
             done.add('reject')
